@@ -8,11 +8,17 @@ let () =
        let line = input_line stdin in
        match split_ws line with
        | "#" :: _ -> d := hdb_init; Buffer.add_string out line; Buffer.add_char out '\n'
+       | ["op"; "B"; a] ->
+         Buffer.add_string out line; Buffer.add_char out '\n';
+         Buffer.add_string out (Printf.sprintf "r 0 %s\n" (string_of_z (base_convert (z_of_string a))))
+       | ["op"; "V"; a] ->
+         Buffer.add_string out line; Buffer.add_char out '\n';
+         Buffer.add_string out (Printf.sprintf "r 0 %s\n" (string_of_z (nocheck_convert (z_of_string a))))
        | ["op"; l; a] ->
          let o = match l with
-           | "C" -> Create (z_of_string a) | "G" -> Get (z_of_string a) | "P" -> Put (z_of_string a)
+           | "C" -> Create (z_of_string a) | "G" | "A" -> Get (z_of_string a) | "P" -> Put (z_of_string a)
            | "D" -> Destroy (z_of_string a) | "R" -> Refcount (z_of_string a)
-           | "X" -> IterReset | "N" -> IterNext | _ -> failwith ("bad op " ^ l) in
+           | "F" -> CreateFail | "X" -> IterReset | "N" -> IterNext | _ -> failwith ("bad op " ^ l) in
          let before = List.length (dlog !d) in
          let (d', r) = step !d o in
          Buffer.add_string out line; Buffer.add_char out '\n';
